@@ -963,5 +963,5 @@ func TestEnum(t *testing.T) {
 }
 
 func TestReplay(t *testing.T) {
-	core.Replay(t, addressCheck, gridCheck, sendCheck, confirmCheck, highloadConfirmCheck, seedCheck, lateConfirmCheck, resendCheck)
+	core.Replay(t, addressCheck, gridCheck, sendCheck, confirmCheck, highloadConfirmCheck, seedCheck, lateConfirmCheck, resendCheck, wideCheck)
 }
